@@ -58,6 +58,24 @@ voter's claim together with the attestation found under the voter's key, or it i
 def TrySite.wellKeyed (t : TrySite) : Bool :=
   (t.att == .voted && t.claim == .voter) || t.claim == .recorded
 
+/-- where `Attest` gets the attestation it appends the vote to: one entry per assignment to that variable, in program order
+(the table `attestLookup` in Gen/C03.lean is regenerated from the body of `Keeper.Attest`; a later entry is only reached when
+the earlier ones yielded nil) -/
+inductive AttSource where
+  /-- `k.GetAttestation(ctx, claim.GetEventNonce(), claim.ClaimHash())`: the attestation stored under the voter's own key -/
+  | ownKey
+  /-- `&types.Attestation{Observed: false, Claim: <Any of the voter's claim>}` -/
+  | fresh
+  /-- anything else (a lookup under another key, a keeper method that is not followed): it may yield any OTHER open stored
+  attestation of that event nonce -/
+  | otherStored (src : String)
+  deriving DecidableEq, Repr
+
+/-- the attestation comes from the voter's own key (or is new) -/
+def AttSource.own : AttSource → Bool
+  | .ownKey | .fresh => true
+  | .otherStored _ => false
+
 /-! ## what the handlers read of a claim (the table `handlerView` in Gen/C03.lean is regenerated from the AST) -/
 
 /-- one value a handler reads of a claim -/
